@@ -155,8 +155,9 @@ def replaceIfCurrent (samePartition : Bool) (cut : Deadline) (cutKey : Nat) : Op
 Zones are names (labels root side first, `[]` is the root); an ancestor is a
 proper prefix.  The state holds the delegation cache, the stack of
 resolutions in progress (`resolveState`, innermost first: sub-queries for
-DS / DNSKEY / NS addresses run inside a request), the request tree's
-`ResponseMeta` and what the answer cache learned.  Ghost fields (`observedAt`,
+DS / DNSKEY / NS addresses run inside a request and share its `ResponseMeta`;
+alias chases of the cache run under a forked one and fold back on `finish true`),
+the `ResponseMeta` of the innermost request segment and what the answer cache learned.  Ghost fields (`observedAt`,
 `grant`, `path`) record where a value came from; they never influence a step. -/
 
 abbrev Name := List Nat
@@ -187,6 +188,13 @@ structure RS where
   zone : Name             -- rs.servers.Zone
   cut : Deadline          -- rs.cutDeadline
   path : List PathElem    -- ghost
+  /-- ghost: the lineage of every sub-query whose records / provenance were
+  consumed into this request's response (alias targets, DNAME targets) -/
+  used : List PathElem := []
+  /-- `some m`: this resolution is a cache-level sub-query (CNAME/DNAME chase) running
+  under its own forked cut (`ResponseMeta.ForkCut`); `m` is the deriving request's
+  ResponseMeta, untouched while the sub-query runs -/
+  outer : Option Meta := none
 deriving Repr, DecidableEq
 
 structure Ans where
@@ -217,8 +225,14 @@ inductive Ev
   /-- the servers of `rs.servers.Zone` answer; whatever they say (own NS set,
       any TTL) ends in the answer cache with this TTL (after floor/ceiling) -/
   | answer (ttl : Int)
-  /-- the innermost resolution returns -/
-  | finish
+  /-- the cache chases an alias target: a sub-query with a FORKED cut
+      (`Cache.subQuery` → `WithForkedCut`); its answer is cached under its own key
+      with its own lineage -/
+  | chase (qname : Name)
+  /-- the innermost resolution returns. For a chase, `used` says whether its records
+      or provenance (incl. a bare rcode) reached the deriving response:
+      `subQueryLineage.inherit()` folds the fork's cut back into the deriving request -/
+  | finish (used : Bool)
   /-- `delegations.Remove` (all servers failing) -/
   | purge (z : Name)
 deriving Repr
@@ -251,19 +265,34 @@ def seed (s : Sys) (m : Meta) (q : Name) : RS × Meta :=
   match searchFrom s.delegs s.now q q.length with
   | some e =>
     let c := (minCut none 0 (some e.expiresAt) 0).1
-    (⟨q, e.zone, c, elemOf e :: e.path⟩, m.boundCutFor c 0)
-  | none => (⟨q, [], none, []⟩, m)
+    ({ qname := q, zone := e.zone, cut := c, path := elemOf e :: e.path }, m.boundCutFor c 0)
+  | none => ({ qname := q, zone := [], cut := none, path := [] }, m)
 
 def step (maxTTL : Int) (s : Sys) : Ev → Sys
   | .tick d => { s with now := s.now + d }
   | .start q => { s with stack := [(seed s {} q).1], cut := (seed s {} q).2 }
   | .substart q => { s with stack := (seed s s.cut q).1 :: s.stack, cut := (seed s s.cut q).2 }
-  | .finish => { s with stack := s.stack.tail }
+  | .chase q =>
+    { s with stack := { (seed s {} q).1 with outer := some s.cut } :: s.stack, cut := (seed s {} q).2 }
+  | .finish used =>
+    match s.stack with
+    | [] => s
+    | r :: rest =>
+      match r.outer with
+      | none => { s with stack := rest }                   -- shared ResponseMeta: nothing to fold
+      | some m =>
+        if used then
+          -- lineage.inherit(): the deriving request is bounded by the sub-query's cut too
+          { s with stack := (match rest with
+                             | [] => []
+                             | o :: t => { o with used := r.path ++ r.used ++ o.used } :: t),
+                   cut := m.boundCutFor s.cut.cut s.cut.key }
+        else { s with stack := rest, cut := m }
   | .purge z => { s with delegs := s.delegs.filter (fun e => e.zone != z) }
   | .answer ttl =>
     match s.stack with
     | [] => s
-    | r :: _ => { s with answers := ⟨r.zone, s.now, ttl, s.cut.cut, r.path⟩ :: s.answers }
+    | r :: _ => { s with answers := ⟨r.zone, s.now, ttl, s.cut.cut, r.path ++ r.used⟩ :: s.answers }
   | .referral z nsTTLs dsTTLs =>
     match s.stack with
     | [] => s
@@ -281,17 +310,17 @@ def step (maxTTL : Int) (s : Sys) : Ev → Sys
           | some e =>
             -- live cached delegation: resolveWithCachedNameservers, nothing is stored
             let c2 := (minCut (some cd) 0 (some e.expiresAt) 0).1
-            let r' : RS := ⟨r.qname, z, c2, elemOf e :: (e.path ++ (⟨z, cd, cd, s.now⟩ :: r.path))⟩
+            let r' : RS := { r with zone := z, cut := c2, path := elemOf e :: (e.path ++ (⟨z, cd, cd, s.now⟩ :: r.path)) }
             { s with stack := r' :: rest, cut := m1.boundCutFor c2 0 }
           | none =>
             match clampUntil maxTTL s.now (some cd) with
             | some v =>
               let ne : Entry := ⟨z, v, s.now, lease - s.now, r.path⟩
-              let r' : RS := ⟨r.qname, z, some cd, ⟨z, cd, v, s.now⟩ :: r.path⟩
+              let r' : RS := { r with zone := z, cut := some cd, path := ⟨z, cd, v, s.now⟩ :: r.path }
               { s with delegs := ne :: s.delegs, stack := r' :: rest, cut := m1 }
             | none =>
               -- a past deadline is not cached (SetUntil skips it); the descent continues
-              let r' : RS := ⟨r.qname, z, some cd, ⟨z, cd, cd, s.now⟩ :: r.path⟩
+              let r' : RS := { r with zone := z, cut := some cd, path := ⟨z, cd, cd, s.now⟩ :: r.path }
               { s with stack := r' :: rest, cut := m1 }
 
 def run (maxTTL : Int) (s : Sys) (evs : List Ev) : Sys := evs.foldl (step maxTTL) s
